@@ -1,4 +1,5 @@
 import Saito.Lemmas.LoopFixed
+import Saito.Lemmas.LoopRefine
 /-!
 # C04 — a rejected block leaves no trace; block processing always returns
 * `fixed_*`: the repaired reorganisation (flag `windFailureRestores`) is total and restores the ledger.
@@ -60,6 +61,75 @@ theorem fixed_failed_reorg_no_trace (fl : Flags) (hv : fl.txVerdict = true) (new
   obtain ⟨pre, hclean, e⟩ := reorgFixed_failure_utxo fl newC oldC st st' hv h hfresh
   rw [e]
   exact failed_reorg_restores P _ pre st.utxo hu hc hclean
+
+/-! ### the same for the repaired LOOP (what `validate` runs), via the refinement `runWRF_refines` -/
+
+/-- C04 (ledger part) for the repaired Wind/Unwind loop itself.  If the loop (started as `Blockchain::validate`
+    starts it, with at least the fuel `validate` gives it, every hash of both chains in the store) returns
+    `false`, the old chain re-validates while it is wound back (`hrest`: the restoration phase of the
+    specification the loop refines runs to the end), validity checks the inputs in the states the candidate's
+    winding visits (`hins`; discharged for `validB` by `insChecked_after_unwind`, see
+    `loop_failed_reorg_no_trace_checked`) and the candidate's outputs are fresh, then the spendable set is exactly
+    what it was — for every fork shape, every position of the offending block and every segment length. -/
+theorem loop_failed_reorg_no_trace (fl : Flags) (newC oldC : List Nat) (st st' : State) (P : List ABlock)
+    (fuel : Nat) (hfuel : 2 * (newC.length + oldC.length) + 4 ≤ fuel)
+    (hne : newC ≠ []) (hres : ∀ h ∈ newC ++ oldC, (blkOf st h).isSome)
+    (h : runWRF fl newC oldC fuel st (startWRF newC oldC) = some (st', false))
+    (hrest : (specRestore (validB fl) (blocksOf st newC).reverse (blocksOf st oldC) st).2.1 = true)
+    (hins : InsChecked (validB fl) ((blocksOf st oldC).foldl unwindBlock st) (blocksOf st newC).reverse)
+    (hu : SameSet st.utxo (replay (P ++ (blocksOf st oldC).reverse)))
+    (hc : CleanSeg (replay P) (blocksOf st oldC).reverse)
+    (hfresh : FreshSeg (unwindSeg st.utxo (blocksOf st oldC).reverse) (blocksOf st newC).reverse) :
+    SameSet st'.utxo st.utxo := by
+  rw [runWRF_refines fl st newC oldC hne hres fuel hfuel] at h
+  obtain ⟨pre, hclean, e⟩ := reorgSpec_failure_utxo _ _ _ st st' (Option.some.inj h) hrest hins hfresh
+  rw [e]
+  exact failed_reorg_restores P _ pre st.utxo hu hc hclean
+
+/-- the same with the hypothesis about validity discharged: the transaction verdict gates validity
+    (`txVerdict`), the node checks inputs against its utxo set (`againstUtxo`: it holds block 1) and no block
+    of either chain lives in the by-height slot of block id 1 (so the reorganisation cannot switch that check
+    off).  WITHOUT `againstUtxo` the statement is not provable: `Block::validate` then skips the utxo check
+    (`validB_ins_global_false`), an unspendable input is wound and its unwinding inserts a key that was never
+    in the ledger. -/
+theorem loop_failed_reorg_no_trace_checked (fl : Flags) (hv : fl.txVerdict = true)
+    (newC oldC : List Nat) (st st' : State) (P : List ABlock)
+    (fuel : Nat) (hfuel : 2 * (newC.length + oldC.length) + 4 ≤ fuel)
+    (hne : newC ≠ []) (hres : ∀ h ∈ newC ++ oldC, (blkOf st h).isSome)
+    (h : runWRF fl newC oldC fuel st (startWRF newC oldC) = some (st', false))
+    (hrest : (specRestore (validB fl) (blocksOf st newC).reverse (blocksOf st oldC) st).2.1 = true)
+    (ha : againstUtxo st = true)
+    (hslot : ∀ b ∈ (blocksOf st newC).reverse ++ blocksOf st oldC, slotOf st 1 ≠ slotOf st b.id)
+    (hu : SameSet st.utxo (replay (P ++ (blocksOf st oldC).reverse)))
+    (hc : CleanSeg (replay P) (blocksOf st oldC).reverse)
+    (hfresh : FreshSeg (unwindSeg st.utxo (blocksOf st oldC).reverse) (blocksOf st newC).reverse) :
+    SameSet st'.utxo st.utxo :=
+  loop_failed_reorg_no_trace fl newC oldC st st' P fuel hfuel hne hres h hrest
+    (insChecked_after_unwind fl hv _ _ st ha hslot) hu hc hfresh
+
+/-- the same at the level of `Blockchain::validate` (flag `windFailureRestores` on): whatever the reason for
+    the verdict `false` (ticket density or a block of the candidate) -/
+theorem validate_failed_reorg_no_trace (fl : Flags) (hf : fl.windFailureRestores = true)
+    (newC oldC : List Nat) (st st' : State) (P : List ABlock)
+    (hres : ∀ h ∈ newC ++ oldC, (blkOf st h).isSome)
+    (h : validate fl st newC oldC = some (st', false))
+    (hrest : (specRestore (validB fl) (blocksOf st newC).reverse (blocksOf st oldC) st).2.1 = true)
+    (hins : InsChecked (validB fl) ((blocksOf st oldC).foldl unwindBlock st) (blocksOf st newC).reverse)
+    (hu : SameSet st.utxo (replay (P ++ (blocksOf st oldC).reverse)))
+    (hc : CleanSeg (replay P) (blocksOf st oldC).reverse)
+    (hfresh : FreshSeg (unwindSeg st.utxo (blocksOf st oldC).reverse) (blocksOf st newC).reverse) :
+    SameSet st'.utxo st.utxo := by
+  obtain ⟨r, hr, hcase⟩ := validate_refines fl hf st newC oldC hres
+  rw [hr] at h
+  have hr' : r = (st', false) := Option.some.inj h
+  rcases hcase with h1 | h1
+  · rw [hr'] at h1
+    rw [(Prod.mk.inj h1).1]
+    exact SameSet.refl _
+  · rw [hr'] at h1
+    obtain ⟨pre, hclean, e⟩ := reorgSpec_failure_utxo _ _ _ st st' h1.symm hrest hins hfresh
+    rw [e]
+    exact failed_reorg_restores P _ pre st.utxo hu hc hclean
 
 /-! ### the livelock of the pinned loop -/
 def blk (h p i : Nat) (ok : Bool := true) : ABlock :=
@@ -136,5 +206,96 @@ theorem pinned_partial_reorg_terminates (fl : Flags) (hfl : fl.txVerdict = false
 example : let st := (addBlock {} s5 (blk 7 5 4) []).1
     (∀ h ∈ [3, 2], (blkOf st h).isSome) ∧ (∀ h ∈ [7, 5, 4], ∃ b, blkOf st h = some b ∧ b.ok = true ∧ b.okNoParent = true) := by
   decide +kernel
+
+/-! ### witness: a NON-trivial failing reorganisation satisfies the hypotheses of `loop_failed_reorg_no_trace`
+The shape of the pinned livelock (`s5` / `blk 6 5 4 false`): candidate [4,5,6] with an invalid LAST block against
+the old chain [2,3], but with real inputs/outputs and the repaired flags. -/
+def wfl : Flags := { windFailureRestores := true, txVerdict := true }
+
+def wb (h p i : Nat) (ins outs : List Nat) (ok : Bool := true) : ABlock :=
+  { hash := h, prev := p, id := i, burnfee := 10, hasGT := true, ok := ok, ins := ins, outs := outs }
+
+/-- genesis 1 (creates keys 10, 11), chain 1←2←3 on top, side blocks 4 (child of 1, spends 10 like block 2)
+    and 5 (child of 4) delivered -/
+def w5 : State :=
+  [wb 1 0 1 [] [10, 11], wb 2 1 2 [10] [12], wb 3 2 3 [12] [13], wb 4 1 2 [10] [14], wb 5 4 3 [14, 11] [15]].foldl
+    (fun s b => (addBlock wfl s b []).1) { gp := 100 }
+
+/-- the offending block: child of 5, header invalid -/
+def wb6 : ABlock := wb 6 5 4 [15] [16] false
+
+/-- the state in which `validate` starts when block 6 is offered -/
+def wPre : State :=
+  let b := wb6
+  let st := w5
+  let slot := slotOf st b.id
+  let st := { st with ring := setItem st.ring slot ((getItem st.ring slot).add b.id b.hash) }
+  let st := { st with blocks := st.blocks ++ [BEntry.mk b false], ringEmpty := false }
+  setLC st 6 true
+
+/-- where the pinned tree stalls (`livelock_addBlock_witness`) the repaired one answers `invalid`, and the
+    ledger and the longest-chain index are what they were -/
+theorem loop_failed_reorg_witness_addBlock :
+    (addBlock wfl w5 wb6 []).2 = .invalid ∧ (addBlock wfl w5 wb6 []).1.utxo = w5.utxo ∧
+      lcDump (addBlock wfl w5 wb6 []).1 = lcDump w5 := by decide +kernel
+
+/-- the repaired loop on the witness: two candidate blocks (4, 5) are wound, block 6 is rejected, 5 and 4 are
+    unwound, 2 and 3 are wound back; verdict `false`; utxo list, block store (with its on-chain marks),
+    longest-chain index (`lcDump`, `ringLc`) and by-height index (`ringDump`) are exactly restored -/
+theorem loop_failed_reorg_witness_run :
+    let r := runWRF wfl [6, 5, 4] [3, 2] (2 * (3 + 2) + 4) wPre (startWRF [6, 5, 4] [3, 2])
+    r.map (·.2) = some false ∧
+    r.map (·.1.utxo) = some wPre.utxo ∧
+    r.map (·.1.blocks) = some wPre.blocks ∧
+    r.map (lcDump ·.1) = some (lcDump wPre) ∧
+    r.map (·.1.ringLc) = some wPre.ringLc ∧
+    r.map (ringDump ·.1) = some (ringDump wPre) ∧
+    wPre.utxo = [13, 11] ∧ lcDump wPre = [(1, 1), (2, 2), (3, 3)] ∧
+    (wPre.blocks.map fun e => (e.b.hash, e.inLC)) = [(1, true), (2, true), (3, true), (4, false), (5, false), (6, true)] ∧
+    (specWound (validB wfl) (blocksOf wPre [6, 5, 4]).reverse (blocksOf wPre [3, 2]) wPre).2.1 = false ∧
+    (specWound (validB wfl) (blocksOf wPre [6, 5, 4]).reverse (blocksOf wPre [3, 2]) wPre).2.2.map (·.hash) = [5, 4] := by
+  decide +kernel
+
+/-- every hypothesis of `loop_failed_reorg_no_trace` / `loop_failed_reorg_no_trace_checked` holds on the witness
+    (with `P` = the genesis block) -/
+theorem loop_failed_reorg_witness_hyps :
+    ([6, 5, 4] : List Nat) ≠ [] ∧
+    (∀ h ∈ [6, 5, 4] ++ [3, 2], (blkOf wPre h).isSome) ∧
+    (specRestore (validB wfl) (blocksOf wPre [6, 5, 4]).reverse (blocksOf wPre [3, 2]) wPre).2.1 = true ∧
+    InsChecked (validB wfl) ((blocksOf wPre [3, 2]).foldl unwindBlock wPre) (blocksOf wPre [6, 5, 4]).reverse ∧
+    SameSet wPre.utxo (replay ([wb 1 0 1 [] [10, 11]] ++ (blocksOf wPre [3, 2]).reverse)) ∧
+    CleanSeg (replay [wb 1 0 1 [] [10, 11]]) (blocksOf wPre [3, 2]).reverse ∧
+    FreshSeg (unwindSeg wPre.utxo (blocksOf wPre [3, 2]).reverse) (blocksOf wPre [6, 5, 4]).reverse := by
+  have hn : blocksOf wPre [6, 5, 4] = [wb6, wb 5 4 3 [14, 11] [15], wb 4 1 2 [10] [14]] := by decide +kernel
+  have ho : blocksOf wPre [3, 2] = [wb 3 2 3 [12] [13], wb 2 1 2 [10] [12]] := by decide +kernel
+  have hu : wPre.utxo = [13, 11] := by decide +kernel
+  refine ⟨by decide, by decide +kernel, by decide +kernel, ?_, ?_, ?_, ?_⟩
+  · exact insChecked_after_unwind wfl rfl _ _ wPre (by decide +kernel) (by decide +kernel)
+  · rw [ho, hu]
+    intro x
+    simp [replay, replayFrom, wb, mem_windU]
+    omega
+  · rw [ho]
+    simp [CleanSeg, CleanAt, replay, replayFrom, wb, mem_windU]
+  · rw [ho, hn, hu]
+    simp [FreshSeg, unwindSeg, wb, wb6, mem_windU, mem_unwindU]
+
+/-- the general theorem applied to the witness -/
+theorem loop_failed_reorg_witness :
+    ∃ st', runWRF wfl [6, 5, 4] [3, 2] (2 * (3 + 2) + 4) wPre (startWRF [6, 5, 4] [3, 2]) = some (st', false) ∧
+      SameSet st'.utxo wPre.utxo := by
+  have hrun : ∃ st', runWRF wfl [6, 5, 4] [3, 2] (2 * (3 + 2) + 4) wPre (startWRF [6, 5, 4] [3, 2]) = some (st', false) := by
+    have h := loop_failed_reorg_witness_run.1
+    cases hr : runWRF wfl [6, 5, 4] [3, 2] (2 * (3 + 2) + 4) wPre (startWRF [6, 5, 4] [3, 2]) with
+    | none => rw [hr] at h; simp at h
+    | some r =>
+      rw [hr] at h
+      obtain ⟨s, v⟩ := r
+      simp only [Option.map_some, Option.some.injEq] at h
+      exact ⟨s, by rw [h]⟩
+  obtain ⟨st', hst'⟩ := hrun
+  obtain ⟨h1, h2, h3, h4, h5, h6, h7⟩ := loop_failed_reorg_witness_hyps
+  exact ⟨st', hst', loop_failed_reorg_no_trace wfl [6, 5, 4] [3, 2] wPre st' [wb 1 0 1 [] [10, 11]] _
+    (Nat.le_refl _) h1 h2 hst' h3 h4 h5 h6 h7⟩
 
 end Saito.C04
